@@ -31,6 +31,10 @@ class Adapter(EnvAdapter):
                 c("r6c5_t7", 6, 5, 7, episodes=8, max_steps=10, policies=["survive", "masked", "survive", "random"]),
                 c("r4c7_t2", 4, 7, 2, episodes=6, max_steps=5, policies=mixed),
                 c("r5c4_t1", 5, 4, 1, episodes=6, max_steps=4, policies=["masked", "random", "survive"]),
+                # synthetic start positions (random fill with overhangs / a 1-wide well): the real step and mask
+                # code on positions that play rarely reaches, 3- and 4-line clears included
+                c("r7c4_t400_pre", 7, 4, 400, episodes=14, max_steps=6, prefilled=True, policies=["well", "masked"]),
+                c("r6c6_t400_pre", 6, 6, 400, episodes=8, max_steps=4, prefilled=True, policies=["well", "masked"]),
             ]
         out = [
             c("r10c10_t400", 10, 10, 400, episodes=24, max_steps=80, probe_every=2, policies=mixed),
@@ -46,18 +50,26 @@ class Adapter(EnvAdapter):
             c("r5c4_t1", 5, 4, 1, episodes=40, max_steps=4, policies=["masked", "random", "survive"]),
             c("r8c12_t3", 8, 12, 3, episodes=20, max_steps=6, policies=mixed),
             c("r12c6_t60", 12, 6, 60, episodes=12, max_steps=63, probe_every=2, policies=["survive", "masked"]),
+            c("r20c10_t400_well", 20, 10, 400, episodes=3, max_steps=300, probe_every=25, policies=["well"]),
+            c("r7c4_t400_pre", 7, 4, 400, episodes=150, max_steps=6, prefilled=True, policies=["well", "masked"]),
+            c("r6c6_t400_pre", 6, 6, 400, episodes=80, max_steps=5, prefilled=True, policies=["well", "masked"]),
+            c("r10c10_t400_pre", 10, 10, 400, episodes=40, max_steps=4, prefilled=True, policies=["well", "masked"]),
+            c("r5c9_t3_pre", 5, 9, 3, episodes=40, max_steps=5, prefilled=True, policies=["well", "masked", "random"]),
         ]
         return out
 
     def make(self, cfg):
         from jumanji.environments import Tetris
 
+        if cfg.get("prefilled"):
+            return _prefilled_cls()(**cfg["ctor"])
         return Tetris(**cfg["ctor"])
 
     def cfg_record(self, cfg, env):
         from jumanji.environments.packing.tetris import constants
 
         rec = dict(cfg["ctor"])  # what the harness requested
+        rec["prefilled"] = bool(cfg.get("prefilled", False))  # synthetic start positions (C10 does not apply)
         # the shape and reward tables are data: exported so that the trace spec can cross-check them
         # against the model's own (rotation-derived) table
         rec["tetrominoes"] = np.asarray(constants.TETROMINOES_LIST, dtype=np.int64).tolist()
@@ -97,6 +109,39 @@ class Adapter(EnvAdapter):
         if best_a is None:
             return self.masked_action(env, state, obs, rng)
         return np.asarray(best_a, dtype=env.action_spec.dtype)
+
+
+def _prefilled_cls():
+    """The real Tetris whose reset starts from a synthetic position instead of the empty grid: either every
+    row below a random height is full except one well column, or a random fill (overhangs, holes) with at
+    least one empty cell per row.  `step` and the mask computation are untouched (inherited)."""
+    import jax
+    import jax.numpy as jnp
+    from jumanji.environments import Tetris
+
+    class PrefilledTetris(Tetris):
+        def reset(self, key):
+            state, ts = super().reset(key)
+            R, C = self.num_rows, self.num_cols
+            k1, k2, k3, k4, k5, k6 = jax.random.split(jax.random.fold_in(key, 7), 6)
+            top = jax.random.randint(k1, (), 1, R)  # rows 0..top-1 stay empty
+            well_mode = jax.random.bernoulli(k2, 0.5)
+            dens = jnp.where(well_mode, 2.0, jax.random.uniform(k3, (), minval=0.3, maxval=0.95))
+            fill = jax.random.uniform(k4, (R, C)) < dens
+            hole = jax.random.randint(k5, (R,), 0, C)
+            hole = jnp.where(well_mode, hole[0], hole)
+            fill = fill & (jnp.arange(C)[None, :] != hole[:, None]) & (jnp.arange(R)[:, None] >= top)
+            grid_padded = jnp.zeros_like(state.grid_padded).at[:R, :C].set(fill.astype(state.grid_padded.dtype))
+            # in well mode every other start holds the I piece (so that 4-line clears are among the probes)
+            piece = jnp.where(well_mode & jax.random.bernoulli(k6, 0.5), 0, state.tetromino_index)
+            tetromino = self.TETROMINOES_LIST[piece, 0]
+            mask = self._calculate_action_mask(grid_padded, piece)
+            state = state.replace(grid_padded=grid_padded, grid_padded_old=grid_padded, action_mask=mask,
+                                  tetromino_index=piece, new_tetromino=tetromino, old_tetromino_rotated=tetromino)
+            obs = ts.observation._replace(grid=grid_padded[:R, :C], action_mask=mask, tetromino=tetromino)
+            return state, ts.replace(observation=obs)
+
+    return PrefilledTetris
 
 
 def _score_placement(grid, piece, x):
